@@ -2812,7 +2812,7 @@ namespace awkward {
               output = current_outputs_[(IndexTypeOf<int64_t>)out_num].get();
             }
 
-            uint64_t mask = (1 << bit_width) - 1;
+            uint64_t mask = (bit_width >= 64 ? ~(uint64_t)0 : (((uint64_t)1 << bit_width) - 1));
             uint64_t bits_wnd_l = 8;
             uint64_t bits_wnd_r = 0;
             int64_t items_remaining = num_items;
